@@ -27,7 +27,7 @@ def anon_enum_with(ck, facts, enumerator):
 
 
 def run(ck):
-    facts = ck.facts(["src/refresh.cc", "src/client_side_reply.cc", "src/client_side_request.cc", "src/http.cc", "src/store.cc"], whole=False)
+    facts = ck.facts(["src/refresh.cc", "src/client_side_reply.cc", "src/client_side_request.cc", "src/http.cc", "src/store.cc", "src/HttpReply.cc"], whole=False)
     codes = anon_enum_with(ck, facts, "STALE_MUST_REVALIDATE")
     LIMIT = codes["STALE_MUST_REVALIDATE"]
 
@@ -134,6 +134,59 @@ def run(ck):
     ck.require_fact("F3.expiry-compared", fl, lambda ev: ev.get("e") == "ret" and (E.const(ev.get("x")) or 0) < 0,
                     E.m_cmp("<", E.m_is_ref(when[0]), E.m_is_mem("StoreEntry::expires")), True, "return <fresh>", why="(an expired entry would be reported fresh)")
 
+    # ------------------------------------------------------------------ L: where the explicit lifetime comes from
+    ck.rule("L1 PRIORITY(HttpReply::hdrExpirationTime): hasMaxAge() is consulted only with hasSMaxAge() established false (s-maxage wins for a shared cache); "
+            "the Expires header is read only with cache_control null or hasMaxAge() false; a return computed from the directive value needs hasSMaxAge() or hasMaxAge() true")
+    het = facts.fn("HttpReply::hdrExpirationTime")
+    hdr = facts.enum("Http::HdrType")
+    smax, maxa = E.m_calls("HttpHdrCc::hasSMaxAge"), E.m_calls("HttpHdrCc::hasMaxAge")
+    fl = ck.flow(het)
+    ck.require_fact("L1.s-maxage-first", fl, ev_call("HttpHdrCc::hasMaxAge"), smax, False, "hasMaxAge()",
+                    why="(max-age would override s-maxage: a shared cache would serve the entry beyond its s-maxage lifetime)")
+    uses_expires = ev_call({"HttpHeader::has", "HttpHeader::getTime"}, arg={0: E.m_const(hdr["EXPIRES"])})
+    ck.require_any("L1.expires-last", het, uses_expires, [(E.m_is_mem(CC), False), (maxa, False)], "header.has|getTime(EXPIRES)", min_sites=2,
+                   why="(Expires would override an explicit max-age/s-maxage lifetime)")
+    age_local = set()
+    for b in het.blocks.values():
+        for ev in b["ev"]:
+            if ev_call({"HttpHdrCc::hasSMaxAge", "HttpHdrCc::hasMaxAge"})(ev):
+                for a in E.strip(ev["x"]).get("a", []):
+                    n = E.root_decl(E.strip(a).get("e"))[1] if E.strip(a).get("k") == "un" else None
+                    if n:
+                        age_local.add(n)
+    ck.need(len(age_local) == 1, "C12: hdrExpirationTime no longer reads s-maxage/max-age into one local (%s)" % sorted(age_local))
+    ck.require_any("L1.lifetime-from-directive", het, lambda ev: ev.get("e") == "ret" and (age_local & E.mentions(ev.get("x"))), [(smax, True), (maxa, True)],
+                   "return <date + directive value>", why="(the lifetime would be computed from a directive that is absent)")
+
+    ck.rule("L2 HttpReply::hdrCacheInit sets expires from hdrExpirationTime(); StoreEntry::timestampsSet writes StoreEntry::expires only from a local every definition of "
+            "which is derived from the reply's expires")
+    hci = facts.fn("HttpReply::hdrCacheInit")
+    ws = ck.sites(ck.flow(hci), ev_assign("HttpReply::expires"), "expires =", 1)
+    for s in ws:
+        if E.m_calls("HttpReply::hdrExpirationTime")(E.strip(s.ev.get("rhs"))):
+            ck.ok("L2.expires-from-headers", s.where(), "hdrCacheInit: expires = hdrExpirationTime()")
+        else:
+            ck.violation("L2.expires-from-headers", "L2|hdrCacheInit|expires-source", s.where(), "hdrCacheInit sets expires from %s" % E.key(s.ev.get("rhs")))
+    ts = facts.fn("StoreEntry::timestampsSet")
+    from_reply = lambda t: t is not None and "HttpReply::expires" in E.mentions(t)
+    for s in ck.sites(ck.flow(ts), ev_assign("StoreEntry::expires"), "expires =", 1):
+        r = E.strip(s.ev.get("rhs"))
+        if isinstance(r, dict) and r.get("k") == "ref" and r.get("dk") == "local":
+            # the local's declaration may carry a placeholder constant only if an assignment derived from reply->expires is passed on every path
+            asg = [ev for bb in ts.blocks.values() for ev in bb["ev"] if ev.get("e") == "asg" and E.m_is_ref(r["d"])(E.strip(ev.get("lhs")))]
+            decl = [ev for bb in ts.blocks.values() for ev in bb["ev"] if ev.get("e") == "decl" and ev.get("d") == r["d"]]
+            fl2 = ck.flow(ts, markers={"derived": lambda ev, asg=asg: any(ev is a for a in asg) and from_reply(ev.get("rhs"))})
+            s2 = [x for x in fl2.find(ev_assign("StoreEntry::expires")) if x.bid == s.bid and x.idx == s.idx]
+            good = bool(asg) and all(from_reply(ev.get("rhs")) for ev in asg) and all(from_reply(ev.get("init")) or (s2 and all(x.passed("derived") for x in s2)) for ev in decl)
+            src = [E.key(ev.get("rhs")) for ev in asg] + [E.key(ev.get("init")) for ev in decl if ev.get("init") is not None]
+        else:
+            good, src = from_reply(r), [E.key(r)]
+        if good:
+            ck.ok("L2.entry-expiry-from-reply", s.where(), "timestampsSet: expires = %s, defined on every path from reply->expires" % E.key(r))
+        else:
+            ck.violation("L2.entry-expiry-from-reply", "L2|timestampsSet|expires-source", s.where(),
+                         "timestampsSet sets StoreEntry::expires from %s, which is not derived from the reply's expires on every path (definitions: %s)" % (E.key(r), src))
+
     # ------------------------------------------------------------------ H: the hit path
     ck.rule("H1 clientReplyContext::cacheHit: sendMoreData() only if refreshCheckHTTP() was false (or flags.internal, didCollapse, or a negative hit); "
             "RESPONSE(refreshCheckHTTP() true -> processExpired() or processMiss())")
@@ -186,7 +239,12 @@ def run(ck):
     hp = facts.fn("HttpStateData::haveParsedReplyHeaders")
     mark = ev_any(ev_ebit_set("ENTRY_REVALIDATE_STALE"), ev_ebit_set("ENTRY_REVALIDATE_ALWAYS"))
     local = E.M(lambda t: E.strip(t).get("k") == "ref" and E.strip(t).get("dk") == "local", "local")
+    ck.sites(ck.flow(hp), mark, "EBIT_SET(ENTRY_REVALIDATE_*)", 2)
     for callee in ("HttpHdrCc::hasMustRevalidate", "HttpHdrCc::hasProxyRevalidate", "HttpHdrCc::hasSMaxAge"):
+        if not ck.trigger_edges(hp, local & ck.m_closure(hp, callee), True, ("IfStmt", "BinaryOperator")):
+            ck.violation("M1.must-revalidate-marked", "M1|haveParsedReplyHeaders|%s|not-consulted" % callee, hp.where(),
+                         "haveParsedReplyHeaders marks entries for revalidation but no branch depends on reply CC %s() any more (such a response would be served stale)" % callee.split("::")[-1])
+            continue
         ck.require_response("M1.must-revalidate-marked", hp, local & ck.m_closure(hp, callee), True, mark, "EBIT_SET(ENTRY_REVALIDATE_*)", term_kinds=("IfStmt", "BinaryOperator"),
                             why="(a must-revalidate response would be served stale)")
     ck.assume("default refresh rules: refresh_pattern override-expire/override-lastmod/ignore-reload/reload-into-ims, max-stale, offline_mode and flags.ignoreCc are cut or listed as guards")
